@@ -1,4 +1,5 @@
 import Rbp.Model.Driver
+import Rbp.Proofs.OpenFiles
 /-!
 # C17 — open blk files stay bounded by the files overlapping the current height
 (logical core; that dropping the reader releases the descriptor is the runtime's — partial)
@@ -27,5 +28,16 @@ theorem disjoint_constant (idx : Index) (maxBy minBy : Nat → Nat) (next : Nat)
 /-- the empty open set satisfies the invariant (start of every run) -/
 theorem init_inv (idx : Index) (maxBy : Nat → Nat) (s : Nat) : Inv idx maxBy s (fun _ => false) := by
   intro f hf; cases hf
+
+/-- the same invariant on the *executed* whole-program model: for every run whose index loaded, in every state the driver
+    loop can stop in (all heights done, a gap, a read or verification error at some height), each blk file whose reader is
+    still open holds a block of a height at or above the next height to deliver -/
+theorem open_invariant_run (coin : Run.Coin) (o : Run.Opts) (key : Option W.Bytes) (files : List (Nat × Run.BlkFile))
+    (kvs : List (W.Bytes × W.Bytes)) (ld : Run.Loaded) (hld : Run.loadIndex o kvs = .ok ld) (n : Nat) :
+    Run.OpenInv ld.full (o.start + (Run.driveLoop coin o key files ld.full ld.trimmed o.start n [] [] []).blocks.length)
+      (Run.driveLoop coin o key files ld.full ld.trimmed o.start n [] [] []).openSet := by
+  have h := Run.driveLoop_openInv coin o key files ld.full ld.trimmed (Run.loadIndex_nodup o kvs ld hld)
+    (Run.loadIndex_sub o kvs ld hld) n o.start [] [] [] (by intro f hf; cases hf)
+  simpa using h.2
 
 end Rbp.Props.C17
